@@ -27,6 +27,7 @@ fn path_of(ops: &[Op]) -> Vec<(u64, u64, bool)> {
                 fin = true;
                 pos = 100; // finish() moves the position to the length
             }
+            "abandon" => fin = true, // the position stays
             _ => {}
         }
         v.push((pos, k, fin));
@@ -43,8 +44,10 @@ struct Frame {
     rows: Vec<String>,
     started: Vec<u64>,
     removed_s: bool,
-    /// painted while MultiProgress::suspend was in progress (the region is hidden on purpose)
+    /// painted while MultiProgress::suspend / clear was in progress (the region is hidden on purpose)
     suspended: bool,
+    /// per worker bar: 0 = handle alive, 1 = drop of the last handle in progress, 2 = dropped
+    dropped: Vec<u64>,
 }
 
 pub fn exec_sched(sc: &Scenario) -> Report {
@@ -86,9 +89,12 @@ pub fn exec_sched(sc: &Scenario) -> Report {
         let started: Arc<Vec<AtomicU64>> = Arc::new((0..nworkers).map(|_| AtomicU64::new(0)).collect());
         let s_removed = Arc::new(AtomicU64::new(0)); // 0 = member, 1 = remove() in progress, 2 = removed
         let suspended = Arc::new(AtomicU64::new(0));
+        let dropped: Arc<Vec<AtomicU64>> = Arc::new((0..nworkers).map(|_| AtomicU64::new(0)).collect());
+        // position of the late bar T in the logical order (doubled ranks: S = 2, B_i = 2 i + 4)
+        let t_rank = Arc::new(AtomicU64::new(2 * nworkers as u64 + 5));
         let frames: Arc<StdMutex<Vec<Frame>>> = Arc::new(StdMutex::new(vec![]));
         {
-            let (st, fr, sr, su) = (started.clone(), frames.clone(), s_removed.clone(), suspended.clone());
+            let (st, fr, sr, su, dr) = (started.clone(), frames.clone(), s_removed.clone(), suspended.clone(), dropped.clone());
             term.lock().on_flush = Some(Arc::new(move |flush, rows| {
                 fr.lock().unwrap().push(Frame {
                     flush,
@@ -96,15 +102,22 @@ pub fn exec_sched(sc: &Scenario) -> Report {
                     started: st.iter().map(|a| a.load(Ordering::SeqCst)).collect(),
                     removed_s: sr.load(Ordering::SeqCst) == 2,
                     suspended: su.load(Ordering::SeqCst) == 1,
+                    dropped: dr.iter().map(|a| a.load(Ordering::SeqCst)).collect(),
                 });
             }));
         }
         let paths: Vec<Vec<(u64, u64, bool)>> = (0..nworkers).map(|i| path_of(&sc.threads[i + 1])).collect();
         let mut handles = vec![];
+        // workers whose bit is set in drop_mask own the only handle of their bar and drop it at
+        // the end of their program (never bar 0: it is the reference bar of insert_before/after)
+        let drop_mask = sc.c("drop_mask") & !1;
+        let mut bars: Vec<Option<ProgressBar>> = bars.into_iter().map(Some).collect();
         for i in 0..nworkers {
-            let pb = bars[i].clone();
+            let owns = (drop_mask >> i) & 1 == 1;
+            let pb = if owns { bars[i].take().unwrap() } else { bars[i].as_ref().unwrap().clone() };
             let ops = sc.threads[i + 1].clone();
             let st = started.clone();
+            let dr = dropped.clone();
             handles.push(verif_simrt::thread::spawn_named(&format!("user-{}", i + 1), move || {
                 let mut k = 0u64;
                 for op in ops.iter() {
@@ -116,11 +129,18 @@ pub fn exec_sched(sc: &Scenario) -> Report {
                             pb.set_message(format!("m{k}"));
                         }
                         "finish" => pb.finish(),
+                        "abandon" => pb.abandon(),
                         "advance" => sched::advance(op.n0()),
                         _ => {}
                     }
                 }
+                if owns {
+                    dr[i].store(1, Ordering::SeqCst);
+                }
                 drop(pb);
+                if owns {
+                    dr[i].store(2, Ordering::SeqCst);
+                }
             }));
         }
         let t_shared: Arc<StdMutex<Option<ProgressBar>>> = Arc::new(StdMutex::new(None));
@@ -186,9 +206,29 @@ pub fn exec_sched(sc: &Scenario) -> Report {
                         s_removed.store(2, Ordering::SeqCst);
                     }
                 }
+                "mp_clear" => {
+                    suspended.store(1, Ordering::SeqCst);
+                    let _ = mp.clear();
+                    suspended.store(0, Ordering::SeqCst);
+                }
+                "mp_align" => mp.set_alignment(if op.n0() % 2 == 1 {
+                    indicatif::MultiProgressAlignment::Bottom
+                } else {
+                    indicatif::MultiProgressAlignment::Top
+                }),
                 "add_t" => {
                     if t_bar.is_none() && !poker {
-                        let pb = mp.add(ProgressBar::with_draw_target(Some(5), ProgressDrawTarget::hidden()));
+                        let nb = ProgressBar::with_draw_target(Some(5), ProgressDrawTarget::hidden());
+                        let b0 = bars[0].as_ref().unwrap();
+                        let end = 2 * nworkers as u64 + 5;
+                        let (pb, rk) = match op.n0() % 5 {
+                            1 => (mp.insert(0, nb), 1),
+                            2 => (mp.insert_from_back(0, nb), end),
+                            3 => (mp.insert_after(b0, nb), 5),
+                            4 => (mp.insert_before(b0, nb), 3),
+                            _ => (mp.add(nb), end),
+                        };
+                        t_rank.store(rk, Ordering::SeqCst);
                         pb.set_style(style("T"));
                         pb.set_message("m0");
                         pb.tick();
@@ -206,7 +246,7 @@ pub fn exec_sched(sc: &Scenario) -> Report {
             }
         }
         // final frame: every bar submits once more, then a forced paint
-        for pb in &bars {
+        for pb in bars.iter().flatten() {
             pb.tick();
         }
         let _ = mp.println("END");
@@ -215,19 +255,24 @@ pub fn exec_sched(sc: &Scenario) -> Report {
         let frames = std::mem::take(&mut *frames.lock().unwrap());
         let mut last_shown: Vec<usize> = vec![0; nworkers];
         let mut appeared: Vec<bool> = vec![false; nworkers];
+        let t_rank = t_rank.load(Ordering::SeqCst) as usize;
         let rank = |tag: &str| -> Option<usize> {
             if tag == "S" {
-                Some(0)
+                Some(2)
             } else if tag == "T" {
-                Some(nworkers + 1)
+                Some(t_rank)
             } else {
-                tag.strip_prefix('B').and_then(|n| n.parse::<usize>().ok()).map(|n| n + 1)
+                tag.strip_prefix('B').and_then(|n| n.parse::<usize>().ok()).map(|n| 2 * n + 4)
             }
         };
         'frames: for (fi, f) in frames.iter().enumerate() {
             let mut prev_rank: Option<usize> = None;
             let mut seen = vec![false; nworkers];
+            let mut tags_seen: Vec<String> = vec![];
             for row in &f.rows {
+                if row.is_empty() {
+                    continue; // padding rows of bottom alignment
+                }
                 let tag = row.split(':').next().unwrap_or("");
                 if row.starts_with('L') || row.starts_with('U') || row == "END" {
                     if prev_rank.is_some() {
@@ -243,14 +288,27 @@ pub fn exec_sched(sc: &Scenario) -> Report {
                         break 'frames;
                     }
                 };
-                if prev_rank.map_or(false, |p| rk <= p) {
-                    r.violate(
-                        "C02.frame_order",
-                        format!("frame #{fi} (flush {}): bars out of logical order or shown twice: {:?}", f.flush, f.rows),
-                    );
+                if tags_seen.iter().any(|t| t == tag) {
+                    r.violate("C02.frame_order", format!("frame #{fi} (flush {}): a bar is shown twice: {:?}", f.flush, f.rows));
                     break 'frames;
                 }
-                prev_rank = Some(rk);
+                tags_seen.push(tag.to_string());
+                // a bar whose last handle is gone (or going) may linger as static text above
+                // lines printed later: it takes no part in the order of the live region
+                let gone = tag
+                    .strip_prefix('B')
+                    .and_then(|n| n.parse::<usize>().ok())
+                    .map_or(false, |i| i < nworkers && f.dropped[i] >= 1);
+                if !gone {
+                    if prev_rank.map_or(false, |p| rk <= p) {
+                        r.violate(
+                            "C02.frame_order",
+                            format!("frame #{fi} (flush {}): bars out of logical order: {:?}", f.flush, f.rows),
+                        );
+                        break 'frames;
+                    }
+                    prev_rank = Some(rk);
+                }
                 if tag == "T" && !row.starts_with("T:0:m0") {
                     r.violate("C02.state_never_had", format!("frame #{fi}: bar T is shown as {row:?}, a state it never had"));
                     break 'frames;
@@ -301,6 +359,9 @@ pub fn exec_sched(sc: &Scenario) -> Report {
                 if f.suspended {
                     break;
                 }
+                if f.dropped[i] >= 1 {
+                    continue;
+                }
                 if appeared[i] && !seen[i] {
                     r.violate("C02.member_missing", format!("frame #{fi} (flush {}): member B{i} was shown before but is missing: {:?}", f.flush, f.rows));
                     break 'frames;
@@ -312,6 +373,9 @@ pub fn exec_sched(sc: &Scenario) -> Report {
         if r.violation.is_none() {
             if let Some(f) = frames.last() {
                 for i in 0..nworkers {
+                    if bars[i].is_none() {
+                        continue; // dropped: cleared, or static text that the last println wiped
+                    }
                     let want = render_row(&format!("B{i}"), *paths[i].last().unwrap());
                     if !f.rows.iter().any(|row| *row == want) {
                         r.violate("C02.final_frame", format!("the last frame does not show the final state {want:?} of B{i}: {:?}", f.rows));
@@ -334,6 +398,21 @@ pub fn exec_sched(sc: &Scenario) -> Report {
             }
         }
         r.probe_n("frames_checked", frames.len() as u64);
+        for op in sc.threads.first().into_iter().flatten() {
+            match op.k.as_str() {
+                "mp_clear" => r.probe("sched_mp_clear"),
+                "mp_align" => r.probe("sched_set_alignment"),
+                "add_t" if op.n0() % 5 != 0 => r.probe("sched_insert_variant"),
+                "mp_suspend" => r.probe("sched_mp_suspend"),
+                _ => {}
+            }
+        }
+        if bars.iter().any(|b| b.is_none()) {
+            r.probe("sched_last_handle_dropped_by_worker");
+        }
+        if frames.iter().any(|f| f.dropped.iter().any(|d| *d == 1)) {
+            r.probe("sched_frame_painted_during_drop");
+        }
         r.nontrivial = frames.len() >= 3 && nworkers >= 2;
         drop(t_bar);
         drop(t_shared.lock().unwrap().take());
@@ -362,16 +441,21 @@ pub fn gen_sched(rng: &mut Rng, tier: Tier) -> Scenario {
     // structural thread
     let mut s_ops = vec![];
     for _ in 0..rng.range(0, 6) {
-        s_ops.push(match rng.below(7) {
+        s_ops.push(match rng.below(9) {
+            7 => Op::new("mp_clear"),
+            8 => Op::new("mp_align").n(rng.below(2)),
             6 => Op::new("mp_suspend").n(rng.below(100)),
             0 | 1 => Op::new("mp_println").n(rng.below(100)),
             2 => Op::new("s_tick"),
             3 => Op::new("remove_s"),
-            4 => Op::new("add_t"),
+            4 => Op::new("add_t").n(rng.below(5)),
             _ => Op::new("advance").n(*rng.pick(&[0, 1_000_000, 60_000_000])),
         });
     }
     threads.push(s_ops);
+    if rng.chance(1, 3) {
+        sc.set("drop_mask", rng.below(1 << nworkers));
+    }
     for _ in 0..nworkers {
         let n = rng.range(3, if tier == Tier::Quick { 8 } else { 12 });
         let mut ops = vec![];
@@ -387,7 +471,7 @@ pub fn gen_sched(rng: &mut Rng, tier: Tier) -> Scenario {
                 _ => {
                     if k + 1 == n {
                         finished = true;
-                        Op::new("finish")
+                        Op::new(if rng.chance(1, 4) { "abandon" } else { "finish" })
                     } else {
                         Op::new("inc")
                     }
